@@ -282,7 +282,9 @@ pub fn gen_options(rng: &mut Rng, threads: &[usize]) -> Vec<String> {
         // (no empty value and no blank inside a value: an invocation travels through the line protocol as one blank-separated string)
         let v = rng.pick(&["+2", "+0", "2x", "1_0", "18446744073709551616", "00001", "+"]).to_string();
         match rng.below(4) { 0 | 1 => { o.push("-F".into()); o.push(v); } 2 => { o.push("--backup-count".into()); o.push(v); }
-            _ => { if threads != [1] || rng.chance(30) { o[1] = rng.pick(&["+1", "+2", "x", "01"]).to_string(); } } }
+            // (a job that asks for single-threaded runs only gets spellings of 1 — or a non-number, which is refused:
+            // `+2` would smuggle a parallel run into it)
+            _ => { if threads != [1] { o[1] = rng.pick(&["+1", "+2", "x", "01"]).to_string(); } else if rng.chance(30) { o[1] = rng.pick(&["+1", "x", "01"]).to_string(); } } }
     }
     // presentation / loader options: never change the result (C14)
     match rng.below(8) { 0 => {}, 1 => o.push("-v".into()), 2 => { o.push("-v".into()); o.push("-v".into()); } 3 => { o.push("-q".into()); o.push("-v".into()); } _ => o.push("-q".into()) }
